@@ -232,9 +232,13 @@ def run(ctx):
                 b = float(rng.uniform(0, B42)) if i > 4 else [0.0, B42, math.radians(0.3), 0.2, 0.01][i]
                 a = float(rng.uniform(0, 20)) if i > 4 else [0.0, 20.0, 19.999, 5.0, 10.0][i]
                 e = float(10 ** rng.uniform(-3, 3))
-                d0, c0 = o_run(k525, b, a, e, 0.0, 0.0)
                 h = dets[i % len(dets)]
-                d1, c1 = o_run(ks[h], b, a, e, 0.0, 0.0)
+                try:
+                    d0, c0 = o_run(k525, b, a, e, 0.0, 0.0)
+                    d1, c1 = o_run(ks[h], b, a, e, 0.0, 0.0)
+                except Exception as ex:
+                    ctx.exception("inv-square", f"the kernel raised for a detector at {h} km (beta={math.degrees(b):.3f} deg, alt={a:.3f} km, E={e:.4g}); the 525 km value times the squared distance ratio is defined", ex, {"det": h, "beta": b, "alt": a, "E": e})
+                    continue
                 bc = max(b, math.radians(1.0))
                 sa = path_to_altitude(a, bc)
                 want = ((path_to_altitude(525.0, bc) - sa) / (path_to_altitude(h, bc) - sa)) ** 2
